@@ -7,7 +7,7 @@ import itertools
 from .. import spec
 from ..loader import AnalysisError
 from ..sym import (C, NONE, Interp, State, contains, is_const, iter_events,
-                   kind, term_str, truth, walk_term)
+                   kind, subst_fold, term_str, truth, walk_term)
 
 B = 'bus.Bus'
 META = {
@@ -37,7 +37,8 @@ META = {
                      'txsa.sym interpreter', 'CPython ast'],
     'assumptions': ['handlers are atomic (reactor)'],
     'decided': ['D1 wire constants', 'D2 RequestName decision table',
-                'D3 release / disconnect cleanup', 'D4 no duplicates',
+                'D3 release / disconnect cleanup; the successor is told on every '
+                'path on which an owner leaves a non-empty queue', 'D4 no duplicates',
                 'D5 lookups read the same table'],
     'undecided': ['step-by-step equivalence with a reference model over '
                   'histories', 'exact order of the emitted signals'],
@@ -207,6 +208,9 @@ def request_table(ctx):
         for ev in iter_events(p.trace):
             if ev[0] == 'setsub' and ev[1] == table and ev[2] == name:
                 effect = 'head'
+            if ev[0] == 'setsub' and ev[1] == ('sub', table, name) and \
+                    ev[2] == C(0):
+                effect = 'head'         # queue[0] = caller
             if ev[0] == 'call' and kind(ev[1][2]) == 'attr' and \
                     ev[1][2][1] == ('sub', table, name):
                 if ev[1][2][2] == 'insert' and ev[1][3] and \
@@ -322,6 +326,11 @@ def release_rules(ctx):
                     c[3] != NONE and contains(
                         c, lambda x: kind(x) == 'sub' and x[2] == C(0)):
                 is_owner = (c[1] == 'is') == pol
+            if kind(c) == 'cmp' and c[1] in ('==', '!=') and \
+                    c[3] == C(0) and kind(c[2]) == 'call' and \
+                    kind(c[2][2]) == 'attr' and c[2][2][2] == 'index':
+                # queue.index(caller) == 0
+                is_owner = (c[1] == '==') == pol
             if kind(c) == 'cmp' and c[1] in ('in', 'not in'):
                 in_queue = (c[1] == 'in') == pol
         codes.setdefault(code, []).append((removed, nonexist, is_owner,
@@ -366,6 +375,58 @@ def release_rules(ctx):
     ctx.ob('C13.D3', rl.qualname, 'successor-told', told,
            'when the owner releases, the longest-waiting client becomes '
            'owner and must be sent NameAcquired')
+    # ... on EVERY path where the owner leaves and somebody waits - whether
+    # the owner released or disconnected (clientDisconnected goes through
+    # ReleaseName with isConnected False)
+    n_succ = 0
+    for removed, ne, is_owner, in_queue, p in codes.get(1, []):
+        queues = [c[2][1] for c in p.calls()
+                  if kind(c[2]) == 'attr' and c[2][2] == 'remove']
+        if not queues:
+            continue
+        L = queues[0]
+        waiting = _nonempty(p.cond, L)
+        acq = [c for c in p.calls() if (c[1] or '').endswith('.sendSignal')
+               and C('NameAcquired') in c[3]]
+        if is_owner and waiting:
+            n_succ += 1
+            ok = any(c[3] and c[3][0] == ('sub', L, C(0)) and name in c[3]
+                     for c in acq)
+            conds = [term_str(c)[:50] for c, pol in p.cond
+                     if not contains(c, lambda x: x == L)]
+            ctx.ob('C13.D3', rl.qualname, 'successor-told-on-every-path', ok,
+                   'the owner gives the name up and a client is waiting, '
+                   'but on this path (%s) the new owner - the head of the '
+                   'queue - is not sent NameAcquired for the name'
+                   % '; '.join('%s=%s' % (t, pol) for (t, pol) in zip(
+                       conds, [pol for c, pol in p.cond if not contains(
+                           c, lambda x: x == L)])))
+        if is_owner is False:
+            ctx.ob('C13.D3', rl.qualname, 'waiter-leaving-changes-no-owner',
+                   not acq, 'a merely waiting client released the name: '
+                   'ownership does not change and nobody may be told '
+                   'NameAcquired', nontrivial=False)
+    if n_succ == 0:
+        ctx.ob('C13.D3', rl.qualname, 'successor-told-on-every-path', False,
+               'no path of ReleaseName on which the owner leaves a '
+               'non-empty queue was recognised')
+
+
+def _nonempty(cond, L):
+    """Is the container L known non-empty by the LAST test of it on the
+    path?  True / False / None (not tested)."""
+    res = None
+    lenL = ('call', 'len', ('builtin', 'len'), (L,), (), None)
+    for c, pol in cond:
+        if c == L:
+            res = pol
+        elif contains(c, lambda x: x == lenL):
+            for n, val in ((0, False), (1, True)):
+                tv = truth(subst_fold(c, {lenL: C(n)}))
+                if tv is not None and tv == pol:
+                    res = val
+                    break
+    return res
 
 
 def disconnect_rules(ctx):
@@ -398,6 +459,12 @@ def disconnect_rules(ctx):
         for ev in iter_events(p.trace):
             if ev[0] == 'delsub' and kind(ev[1]) == 'attr' and \
                     ev[1][2] == 'clients':
+                okc = True
+            if ev[0] == 'call' and kind(ev[1][2]) == 'attr' and \
+                    ev[1][2][2] == 'pop' and kind(ev[1][2][1]) == 'attr' \
+                    and ev[1][2][1][2] == 'clients' and ev[1][3] and \
+                    kind(ev[1][3][0]) == 'attr' and \
+                    ev[1][3][0][2] == 'uniqueName':
                 okc = True
     ctx.ob('C13.D3', cd.qualname, 'forgets-connection', okc,
            'the unique name of a disconnected client must be removed from '
